@@ -80,6 +80,7 @@ type exec struct {
 	relSince atomic.Int32 // releases issued since the last quiescent point (the discipline consumes them a few per loop round)
 	cleanup  atomic.Bool  // the harness has started to tear the run down: terminations from here on are its own doing
 	stopA    atomic.Bool  // Stop()/cancel has been issued (survives an abandoned bubble)
+	termA    atomic.Bool  // termination has been observed (Stop() returned, Err()/Output() closed, GracefulStop returned)
 	faultA   atomic.Bool  // the fault of the plan has been injected (survives an abandoned bubble)
 	created  atomic.Bool
 
@@ -220,7 +221,8 @@ func (e *exec) onDivide(prios []uint, dividend uint, dist map[uint]uint, nilMap 
 // maybeFault corrupts the result of an eligible call according to the fault plan.
 func (e *exec) maybeFault(prios []uint, dividend uint, dist map[uint]uint, eligible bool) {
 	f := e.s.Fault
-	if f == nil || !eligible || dist == nil || len(prios) == 0 {
+	if f == nil || !eligible || dist == nil || (len(prios) == 0 && !f.Outside) {
+		// (a call with an empty list can only be corrupted by putting units on a priority outside it)
 		return
 	}
 	e.mu.Lock()
@@ -253,6 +255,11 @@ func (e *exec) maybeFault(prios []uint, dividend uint, dist map[uint]uint, eligi
 		}
 		e.mu.Unlock()
 		sort.Slice(outside, func(i, j int) bool { return outside[i] > outside[j] })
+		if len(prios) == 0 {
+			// nothing is listed, so a correct divider adds nothing whatever the dividend: the
+			// corrupted total must differ from the dividend as well as from zero
+			d += dividend
+		}
 		if len(outside) > 0 {
 			dist[outside[0]] += d
 		} else {
@@ -526,6 +533,7 @@ func (e *exec) markTerminatedLocked(how string) {
 		return
 	}
 	e.terminated = true
+	e.termA.Store(true)
 	e.tr.Terminated = true
 	e.tr.TerminatedAt = e.now()
 	e.tr.TermOp = int(e.opIdx.Load())
@@ -772,6 +780,9 @@ func (e *exec) build() error {
 		out := make(chan v1.Prioritized[Item], s.OutCap)
 		fb := make(chan uint, s.FbCap)
 		ctx, cancel := context.WithCancel(context.Background())
+		if s.PreCancel {
+			cancel() // the discipline is created with a context that is already cancelled
+		}
 		d, err := v1.New(v1.Opts[Item]{Ctx: ctx, Divider: e.dividerV1(), Feedback: fb, HandlersQuantity: s.H, Inputs: chans, Output: out})
 		if err != nil {
 			cancel()
@@ -802,6 +813,9 @@ func (e *exec) build() error {
 		}
 	default:
 		ctx, cancel := context.WithCancel(context.Background())
+		if s.PreCancel {
+			cancel()
+		}
 		d, err := v1.NewSimple(v1.SimpleOpts[Item]{Ctx: ctx, Divider: e.dividerV1(), Handle: e.gate, HandlersQuantity: s.H, Inputs: chans})
 		if err != nil {
 			cancel()
@@ -1099,6 +1113,7 @@ func (e *exec) stop(kind string, n int) {
 				return // released by the harness's own teardown (context cancelled): not the discipline's doing
 			}
 			e.mu.Lock()
+			e.termA.Store(true)
 			if !e.tr.StopReturned {
 				e.tr.StopReturned = true
 				e.tr.StopReturnedAt = e.now()
@@ -1362,6 +1377,38 @@ func execute1(t *testing.T, s Script, leakScan bool, budget time.Duration) Trace
 			tr.NewErr = err.Error()
 			return
 		}
+		if s.PreCancel && s.Ver == 1 {
+			// cancelled before it was created: it must be found terminated, Stop() must return, and
+			// nothing of it may be left
+			// (no waiting for quiescence in between: a goroutine that keeps running would hide the
+			// very observations that attribute it)
+			e.stopA.Store(true)
+			e.mu.Lock()
+			e.stopIssued = true
+			e.tr.StopIssuedAt = e.now()
+			e.tr.StopMode = "cancel"
+			e.mu.Unlock()
+			for errc := e.ad.errCh(); ; {
+				if _, ok := <-errc; !ok {
+					break
+				}
+			}
+			e.mu.Lock()
+			e.tr.ErrClosed = true
+			if e.tr.ErrVal == "" {
+				e.tr.ErrVal = "nil-closed"
+			}
+			e.tr.CancelTookEffect = true
+			e.markTerminatedLocked("Err() closed")
+			e.mu.Unlock()
+			e.ad.stop()
+			e.mu.Lock()
+			e.tr.StopReturned = true
+			e.tr.StopReturnedAt = e.now()
+			e.mu.Unlock()
+			e.termA.Store(true)
+			return
+		}
 		for i, op := range s.Ops {
 			e.opIdx.Store(int64(i))
 			e.doOp(op)
@@ -1381,6 +1428,7 @@ func execute1(t *testing.T, s Script, leakScan bool, budget time.Duration) Trace
 		sp := Trace{Spin: true, Deadlock: res.Deadlock, GStopIssuedAt: -1, StopIssuedAt: -1, MaxPerPrio: map[uint]int{}}
 		if e := ep.Load(); e != nil {
 			sp.SpinAfterStop = e.stopA.Load()
+			sp.SpinAfterTerm = e.termA.Load()
 			sp.SpinAfterFault = e.faultA.Load()
 		}
 		return sp
